@@ -666,6 +666,148 @@ def _f92(vio):
     return vio.get("kind") == "unexpected-error" and "float16 not implemented" in (det.get("got") or "")
 
 
+def _c16(vio):
+    case = vio.get("case") or {}
+    return case.get("fam") in ("buffers", "pickle", "numpy", "from_numpy", "arrow")
+
+
+def _c16_err(vio):
+    det = vio.get("detail") or {}
+    return det.get("error") or ""
+
+
+def _T_has_time(T):
+    if not isinstance(T, dict):
+        return False
+    if T.get("t") == "prim":
+        return T["d"].startswith("datetime") or T["d"].startswith("timedelta")
+    return any(_T_has_time(x) for x in [T.get("e")] + list(T.get("fields", [])) + list(T.get("arms", [])))
+
+
+@mechanism("F94-datetime-conversions")
+def _f94(vio):
+    """datetime64/timedelta64 leaves in to_buffers / pickle / to_numpy / from_numpy / to_arrow: the conversion code of
+    1.4.0 predates the datetime support of the C++ layer ('cannot convert NumPy dtype with kind M into a NumpyForm',
+    'int too big to convert', NumpyArray.dtype, datetime read back as float64)"""
+    if not _c16(vio):
+        return False
+    case = vio.get("case") or {}
+    dt = case.get("dtype") or ""
+    return _T_has_time(case.get("T")) or dt.startswith("datetime") or dt.startswith("timedelta")
+
+
+@mechanism("F93-from_buffers-sorts-record-fields")
+def _f93(vio):
+    """from_buffers (and so pickle) rebuilds records from RecordForm.contents, which the binding exposes as a
+    std::map: the fields come back in alphabetical order"""
+    from vlib import model
+    if not _c16(vio) or not any(vio.get("kind", "").endswith(x) for x in ("-type-changed", "-value-changed",
+                                                                         "-parameters-changed")):
+        return False
+    if (vio.get("case") or {}).get("fam") not in ("buffers", "pickle"):
+        return False
+    for d in _layouts(vio) + list((vio.get("case") or {}).get("parts", [])):
+        for _p, n in model.walk(d):
+            if n["c"] == "RecordArray" and n["keys"] is not None and list(n["keys"]) != sorted(n["keys"]):
+                return True
+    return False
+
+
+@mechanism("F95-strided-leaf-buffers")
+def _f95(vio):
+    """conversions that hand a non-contiguous (strided / reversed) leaf buffer on as it is: to_arrow ('ndarray is not
+    contiguous'), to_buffers -> from_buffers and from_numpy of strided string arrays ('the last axis must be
+    contiguous', 'its size must be a divisor of the total size')"""
+    if not _c16(vio):
+        return False
+    e = _c16_err(vio)
+    return "not contiguous" in e or "must be contiguous" in e or "must be a divisor of the total size" in e or \
+        "strides not supported" in e or "buffer size must be a multiple of element size" in e
+
+
+def _c16_msg(vio, *frags):
+    e = _c16_err(vio)
+    return _c16(vio) and any(f in e for f in frags)
+
+
+@mechanism("F97-from_buffers-drops-empty-partitions")
+def _f97(vio):
+    """from_buffers of a partitioned container: zero-length partitions are not restored"""
+    det = vio.get("detail") or {}
+    if vio.get("kind") != "buffers-partitioning-changed":
+        return False
+    before, after = det.get("before") or [], det.get("after") or []
+    return [x for x in before if x != 0] == list(after or [])
+
+
+@mechanism("F98-arrow-allow_tensor")
+def _f98(vio):
+    """to_arrow(allow_tensor=True) puts pyarrow.Tensor objects where Arrays are needed (below lists/records/options) and
+    from_arrow does not read a Tensor back"""
+    case = vio.get("case") or {}
+    return case.get("fam") == "arrow" and (case.get("opts") or {}).get("allow_tensor") and "Tensor" in _c16_err(vio)
+
+
+@mechanism("F99-packed-masked-over-option")
+def _f99(vio):
+    """ak.packed (used by pickling) calls toIndexedOptionArray64() on the result of simplify() of a Byte/BitMaskedArray,
+    which is an IndexedOptionArray64 without that method when the masked content is itself option-type/indexed"""
+    return _c16_msg(vio, "has no attribute 'toIndexedOptionArray64'")
+
+
+@mechanism("F100-arrow-union-with-options")
+def _f100(vio):
+    """to_arrow / from_arrow of union-type arrays that involve missing values: invalid buffers ('Buffer #0 too small'),
+    index errors while building the validity bitmap, unsupported casts of null unions, or missing values changed on the
+    way back (the dense-union code of 1.4.0; validated more strictly by current pyarrow)"""
+    from vlib import model
+    case = vio.get("case") or {}
+    if case.get("fam") != "arrow" or not isinstance(case.get("layout"), dict):
+        return False
+    return any(n["c"] == "UnionArray" for _p, n in model.walk(case["layout"]))
+
+
+@mechanism("F101-to_buffers-masked-content-length")
+def _f101(vio):
+    """to_buffers/from_buffers of a ByteMaskedArray/BitMaskedArray whose content is longer or shorter than the lengths
+    from_buffers recomputes from the Form ('content must not be shorter than its mask')"""
+    return _c16_msg(vio, "content must not be shorter than its mask")
+
+
+@mechanism("F102-size0-dimensions-in-conversions")
+def _f102(vio):
+    """zero-size regular dimensions in from_numpy / to_numpy / from_buffers: reshape errors and lost lengths"""
+    import re
+    if not _c16(vio):
+        return False
+    case = vio.get("case") or {}
+    det = vio.get("detail") or {}
+    shape = case.get("shape") or []
+    if 0 in shape[1:]:
+        return True
+    if vio.get("kind") == "to_numpy-differs-from-value" and det.get("got") == "[]" and \
+            set(det.get("expected") or "x") <= set("[], "):
+        return True          # lists that are all empty become a dimension of size 0
+    return bool(re.search(r"(?<![0-9])0\*", det.get("type") or ""))
+
+
+@mechanism("F103-from_buffers-raw-bytes-multidimensional")
+def _f103(vio):
+    """from_buffers with raw bytes for a multidimensional NumpyArray node: 'cannot reshape array of size N into shape'"""
+    case = vio.get("case") or {}
+    return case.get("fam") == "buffers" and "cannot reshape array of size" in _c16_err(vio)
+
+
+@mechanism("F104-arrow-categorical")
+def _f104(vio):
+    """categorical (dictionary-encoded) arrays through to_arrow/from_arrow: values come back rearranged"""
+    from vlib import model
+    case = vio.get("case") or {}
+    if case.get("fam") != "arrow" or not isinstance(case.get("layout"), dict):
+        return False
+    return any(model.param(n, "__array__") == "categorical" for _p, n in model.walk(case["layout"]))
+
+
 @mechanism("F10-reduce-nonlocal")
 def _f10(vio):
     rep = _report(vio)
